@@ -219,6 +219,53 @@ def run(prog, rep, tier):
         rep.violation(R94, bd.path + "|distinct", "JournalReader: renderings %s are dispatched identically (same renderer and constants)" % sorted(dup))
     rep.floor(R94, 8)
 
+    # ------------------------------------------------------------ R9.9 cat rendering prints the MESSAGE value as stored
+    # next_cat prints the bytes after "MESSAGE=".  Between the value libsystemd returns and the write
+    # there may be the sub-slice that skips the key, but nothing that shortens or rewrites the value
+    # (trim, strip, replace, case folding): journalctl -o cat prints trailing blanks too.
+    R99 = rep.rule("R9.9", "cat rendering writes the MESSAGE value as stored (no trimming or rewriting)")
+    cb_ = prog.body("s4lib::readers::journalreader::JournalReader::next_cat")
+    gd = [c for c in cb_.live_calls() if c.d.endswith("::call_sd_journal_get_data")]
+    REWRITE = ("trim", "trim_end", "trim_start", "trim_end_with", "trim_with", "trim_ascii", "trim_ascii_end", "strip_suffix", "strip_prefix", "replace", "replacen", "to_lowercase", "to_uppercase",
+               "trim_end_matches", "trim_matches", "to_ascii_lowercase", "to_ascii_uppercase", "truncate", "lines", "split")
+    if not gd:
+        raise CheckerError("next_cat: call_sd_journal_get_data not found")
+    nwc = 0
+    for c in cb_.live_calls():
+        nm = (c.o or c.d).split("::")[-1]
+        if nm not in ("push_str", "extend_from_slice", "extend", "append", "write_all"):
+            continue
+        if len(c.args) < 2 or c.args[1][0] == "k":
+            continue
+        # walk back (all definitions) through calls to the get_data result, collecting the call names on the way
+        chain = []
+        reached = False
+        work = [c.args[1]]
+        seenc = set()
+        while work and len(seenc) < 40:
+            cur = work.pop()
+            for x in cb_.origins(cur, through_calls=("::deref", "::as_ref", "::as_bytes", "::as_slice", "::borrow")):
+                if x[0] != "call" or x[1] in seenc:
+                    continue
+                seenc.add(x[1])
+                cc_ = [z for z in cb_.calls if z.bb == x[1]][0]
+                if cc_.bb in [g.bb for g in gd]:
+                    reached = True
+                    continue
+                chain.append((cc_.o or cc_.d).split("::")[-1])
+                if cc_.args and cc_.args[0][0] != "k":
+                    work.append(cc_.args[0])
+        if not reached:
+            continue
+        nwc += 1
+        bad_ = [x for x in chain if x in REWRITE]
+        rep.examined(R99, cb_.path + "|message-write", sample={"line": c.line, "calls_between_value_and_write": chain})
+        if bad_:
+            rep.violation(R99, cb_.path + "|message-write", "next_cat: the MESSAGE value passes through %s() before it is written (line %d); the printed text is no longer the stored text "
+                          "(entries whose message ends in a blank lose it; journalctl -o cat keeps it)" % (bad_[0], c.line))
+    if nwc == 0:
+        raise CheckerError("next_cat: no write of the value returned by sd_journal_get_data found")
+
     # ------------------------------------------------------------ R9.8 a signed instant does not wrap when it becomes the unsigned journal clock
     # libsystemd's realtime clock is unsigned microseconds.  A window bound before 1970 has a negative
     # timestamp_micros(); `as u64` turns it into a huge value (every entry is then "before" --dt-after).
